@@ -341,3 +341,51 @@ void h_var_suppr(void)
   COVER(r && cfg[0] && cfg[3] && cfg[6] && cfg[8]); COVER(!r && (ck & k)); COVER(r && !has_sym); COVER(r && cfg[2] && cfg[5]);
   WITNESS_END();
 }
+
+/* ---------------------------------------------------------------------------------------------------------------
+   Symbol-only suppression (binaries without debug info, C19/C23): function_suppression::suppresses_function_symbol and
+   variable_suppression::suppresses_variable_symbol (real) on real sections with every subset of their properties,
+   against an ELF symbol of arbitrary kind, name and version, asked about an addition or a deletion. */
+static _Bool sym_is_fn;
+u8 _ZNK7abigail2ir10elf_symbol11is_functionEv(void *s) { return sym_is_fn; }
+u8 _ZNK7abigail2ir10elf_symbol11is_variableEv(void *s) { return !sym_is_fn; }
+#ifndef SYMKIND
+#define SYMKIND 0     /* 0: [suppress_function] against a symbol, 1: [suppress_variable] against a symbol */
+#endif
+void h_sym_suppr(void)
+{
+  fs_mode = 1;
+  _Bool cfg[10]; for (int i = 0; i < 10; i++) cfg[i] = nondet_bool();
+  u32 ck = nondet_u32(); __CPROVER_assume(ck <= 7);
+  u32 k = nondet_bool() ? 2 : 4;                       /* ADDED_*_CHANGE_KIND / DELETED_*_CHANGE_KIND: what the callers ask */
+  _Bool symname_same = nondet_bool(), null_sym = nondet_bool();
+  u32 ver_kind = nondet_u32(); __CPROVER_assume(ver_kind < 3);
+  sym_is_fn = nondet_bool();
+  for (int i = 0; i < 6; i++) { fs_compile_ok[i] = nondet_bool(); fs_compiled[i] = 0; for (int j = 0; j < 10; j++) fs_match[i][j] = nondet_bool(); }
+  vs_make(&sym_name, symname_same ? "f" : "h"); vs_make(&sym_version, ver_kind == 0 ? "1" : ver_kind == 1 ? "2" : "");
+  ncompiled = 0;
+  void *s = SYMKIND ? w_vs_new((void *)cfg, ck) : w_fs_new((void *)cfg, ck, 0);
+  void *sym = null_sym ? 0 : (void *)sym_obj;
+  u8 r = SYMKIND ? w_vs_suppresses_symbol(s, sym, k) : w_fs_suppresses_symbol(s, sym, k);
+  int ss = symname_same ? 0 : 2, vs = ver_kind == 2 ? 9 : ver_kind == 0 ? 3 : 4;
+  int right_kind = SYMKIND ? !sym_is_fn : sym_is_fn;
+  PROP(!null_sym || !r, "C23-sym-null: no symbol, nothing hidden");
+  PROP((ck & k) != 0 || !r, "C23-sym-change-kind-limits: a section never hides a kind of change its change_kind does not name");
+  PROP(right_kind || !r, "C23-sym-kind: a function section never hides a variable symbol and vice versa");
+  /* the constraints on the symbol: its name (symbol_name, or - for variables - name; else symbol_name_regexp) and version */
+  int by_name = SYMKIND && cfg[0];
+  int has_name_c = by_name || cfg[3] || cfg[4], has_ver_c = cfg[6] || cfg[7];
+  PROP(has_name_c || has_ver_c || !r, "C22-sym-needs-a-symbol-property: a section without any symbol name or version property hides no symbol");
+  if ((by_name || cfg[3]) && !symname_same) PROP(!r, "C22-sym-name-mismatch: a symbol whose name differs from the given name is not hidden");
+  if (!by_name && !cfg[3] && cfg[4] && fs_compile_ok[2] && !fs_match[2][ss]) PROP(!r, "C22-sym-name-regexp-mismatch");
+  if (cfg[6] && ver_kind != 0) PROP(!r, "C22-sym-version-mismatch: a symbol whose version differs from symbol_version (or is absent) is not hidden");
+  if (!cfg[6] && cfg[7] && fs_compile_ok[4] && !fs_match[4][vs]) PROP(!r, "C22-sym-version-regexp-mismatch");
+  if (fs_compile_ok[2] && fs_compile_ok[4]) {
+    int name_ok = (by_name || cfg[3]) ? symname_same : (!cfg[4] || fs_match[2][ss]);
+    int ver_ok = cfg[6] ? ver_kind == 0 : (!cfg[7] || fs_match[4][vs]);
+    PROP((r != 0) == (!null_sym && (ck & k) != 0 && right_kind && (has_name_c || has_ver_c) && name_ok && ver_ok),
+         "C23-sym-exactly-what-it-names: a section hides an added/removed symbol exactly when the kind of change and symbol fit and every given symbol name / version constraint is satisfied");
+  }
+  COVER(r && cfg[3] && cfg[6]); COVER(r && !cfg[3] && cfg[4]); COVER(!r && !null_sym && right_kind && (ck & k)); COVER(r && !has_name_c);
+  WITNESS_END();
+}
